@@ -3,7 +3,9 @@ package main
 import (
 	"fmt"
 	"math"
+	"math/big"
 	"math/rand"
+	"strconv"
 	"strings"
 	"time"
 
@@ -37,6 +39,24 @@ func ptsStr(ps data.Points) string {
 	return strings.Join(s, ";")
 }
 
+// ptsCaseStr is ptsStr for case lines (inputs): the zero time is written exactly, not as the wrapped UnixNano
+func ptsCaseStr(ps data.Points) string {
+	if len(ps) == 0 {
+		return "-"
+	}
+	var s []string
+	for _, p := range ps {
+		x := ptStr(p)
+		if p.Time.IsZero() {
+			f := strings.Split(x, ",")
+			f[4] = zeroTimeNs
+			x = strings.Join(f, ",")
+		}
+		s = append(s, x)
+	}
+	return strings.Join(s, ";")
+}
+
 func parsePt(s string) data.Point {
 	f := strings.Split(s, ",")
 	if len(f) != 8 {
@@ -49,8 +69,25 @@ func parsePt(s string) data.Point {
 		v = math.Float64frombits(atou64(f[2]))
 	}
 	p := data.Point{Type: string(unhx(f[0])), Key: string(unhx(f[1])), Value: v, Text: string(unhx(f[3])),
-		Time: time.Unix(0, atoi64(f[4])), Tombstone: int(atoi64(f[5])), Origin: string(unhx(f[6])), Data: unhx(f[7])}
+		Time: parseTimeNs(f[4]), Tombstone: int(atoi64(f[5])), Origin: string(unhx(f[6])), Data: unhx(f[7])}
 	return p
+}
+
+// zeroTimeNs: Go's zero time (0001-01-01T00:00:00Z) in nanoseconds since the epoch; it does not fit an int64, the wire
+// format (seconds + nanoseconds) carries it
+const zeroTimeNs = "-62135596800000000000"
+
+// parseTimeNs reads a time in nanoseconds since the epoch, also beyond the int64 range
+func parseTimeNs(s string) time.Time {
+	if v, err := strconv.ParseInt(s, 10, 64); err == nil {
+		return time.Unix(0, v)
+	}
+	b, ok := new(big.Int).SetString(s, 10)
+	if !ok {
+		panic("bad time in case: " + s)
+	}
+	sec, nsec := new(big.Int).DivMod(b, big.NewInt(1000000000), new(big.Int))
+	return time.Unix(sec.Int64(), nsec.Int64())
 }
 
 func parsePts(s string) data.Points {
@@ -74,7 +111,9 @@ func genPoint(r *rand.Rand) data.Point {
 	if r.Intn(3) == 0 {
 		p.Value = r.NormFloat64() * math.Pow(10, float64(r.Intn(12)-4))
 	}
-	switch r.Intn(6) {
+	switch r.Intn(7) {
+	case 6:
+		p.Time = time.Time{} // the zero time: legal on the wire, written exactly in the case line (see ptCaseStr)
 	case 0:
 		p.Time = time.Unix(0, 0)
 	case 1:
